@@ -413,8 +413,9 @@ class SparselyBin(Factory, Container):
                     if bin is None:
                         bin = self.value.zero()
                         self.bins[index] = bin
-                    if n_dim == 1:
+                    if n_dim == 1 or isinstance(data, dict):
                         # passing on the full array is faster for one-dim histograms
+                        # (and a dict of arrays cannot be sliced with a boolean mask)
                         np.not_equal(q, index, selection)
                         subweights[:] = weights
                         subweights[selection] = 0.0
